@@ -34,12 +34,15 @@ type c08Env struct {
 	n     int
 }
 
-func newC08Env() *c08Env {
+func newC08Env() *c08Env { return newC08EnvFile("") }
+
+// newC08EnvFile: the DHCP handler keeps its leases in the given file ("" = none).
+func newC08EnvFile(leaseFile string) *c08Env {
 	e := &c08Env{}
 	e.s, e.conn = newSession(defaultNIC())
 	e.arp, _ = arp.New(e.s)
 	var err error
-	e.dhcp, err = dhcp4.Config{Mode: dhcp4.ModeSecondaryServer, NetfilterIP: netip.MustParsePrefix("192.168.0.129/25"), DNSServer: netip.MustParseAddr("8.8.8.8"), LeaseFilename: ""}.New(e.s)
+	e.dhcp, err = dhcp4.Config{Mode: dhcp4.ModeSecondaryServer, NetfilterIP: netip.MustParsePrefix("192.168.0.129/25"), DNSServer: netip.MustParseAddr("8.8.8.8"), LeaseFilename: leaseFile}.New(e.s)
 	if err != nil {
 		panic("c08: dhcp handler: " + err.Error())
 	}
